@@ -261,14 +261,23 @@ def run(ctx):
                        "(termination only); non-trivial = every case (each is a distinct text)")
     # thread-pair independence first (LINE events are switched off again before the enumeration)
     from checks import pair_ops  # noqa: PLC0415
-    from mc import pairs  # noqa: PLC0415
+    from mc import firstuse, pairs  # noqa: PLC0415
 
+    # first use in a process before anything else touches the library (the workers must be pristine)
+    fu_ops = [["fu_item_sml", "< L < U1 1 2 > < A \"x y\" > >"], ["fu_item_sml", "<B 0x01 0xff>"], ["fu_item_value", [True, "q"]]]
+    if ctx.thorough:  # one forked child per execution: too slow for the quick tier of this check
+        firstuse.run_part(ctx, fu_ops, "C15", 1)
     ops = [["sml", d] for d in pair_ops.LEAVES[:2] + pair_ops.LEAVES[3:5] + pair_ops.TREES] + [["sml_text", "< L < U1 1 2 > < A \"x y\" > >"]]
     pair_execs = pairs.run_part(ctx, ops, "C15", 1)  # (two delays over these long operations cost more than the whole enumeration)
     ctx.run_cases(check_case, cases(ctx), "c15", chunk=16)
 
 
 def replay(ctx, detail):
+    if isinstance(detail.get("case"), dict) and detail["case"].get("part") == "first-use":
+        from mc import firstuse  # noqa: PLC0415
+
+        firstuse.replay(ctx, detail["case"], "C15")
+        return
     if isinstance(detail.get("case"), dict) and detail["case"].get("part") == "pair":
         from mc import pairs  # noqa: PLC0415
 
